@@ -1,2 +1,2 @@
 (* C13: collects the proofs of part (a) (Proofs/C13_a.v) and part (b) (Proofs/C13_b.v). *)
-Require Export Verif.Proofs.C13_a Verif.Proofs.C13_b Verif.Proofs.C13_c Verif.Proofs.C13_d.
+Require Export Verif.Proofs.C13_a Verif.Proofs.C13_b Verif.Proofs.C13_c Verif.Proofs.C13_d Verif.Proofs.C13_e.
